@@ -129,6 +129,10 @@ def run(run, pid):
                     for r0 in pr.p0(key):
                         ok &= ob("%s:P0@L%d" % (q, r0["line"]), r0["holds"], "%s calls %s without having established that the next token is one of its required classes (look-ahead known: %s)" % (
                             m.key_text(key), r0["callee"], r0["la1"]), {"method": key[0], "callee": r0["callee"], "line": r0["line"]})
+                for k2, pk in enumerate(aut.peek2):
+                    ok &= ob("%s:P7@L%d" % (q, pk["line"]), pk["la1"] is not None and "EOF" not in pk["la1"],
+                             "%s looks two tokens ahead at line %d without having excluded that the next token is EOF: Parser._advance_window then never returns "
+                             "(the lexer is exhausted and the buffer is not empty)" % (m.key_text(key), pk["line"]), {"method": key[0], "line": pk["line"]})
                 for o in SH.p4(aut):
                     sid = "Parser.%s:P4:%s" % (key[0], o["id"])
                     if sid in seen_shape:
